@@ -662,6 +662,114 @@ def gen_loader(repo, outdir):
     T.write(outdir, 'Loader.v', text)
 
 
+
+# ---- OpTable.v --------------------------------------------------------------------------------
+
+READ_RE = r'(?:bytes|input)\.(read_\w+|split)\('
+
+
+def gen_op_table(repo, outdir):
+    consts = all_constants(repo)
+    src = src_of(repo, 'src/read/op.rs')
+    body = T.fn_body(src, r'pub\s+fn\s+parse\s*\(\s*bytes\s*:\s*&mut\s+R\s*,\s*encoding\s*:\s*Encoding\s*\)\s*->\s*Result<Operation<R,\s*Offset>>')
+    if not re.fullmatch(r'letopcode=bytes\.read_u8\(\)\?;letname=constants::DwOp\(opcode\);matchname\{.*\}', squeeze(body), re.S):
+        raise Unparsed('Operation::parse has an unexpected frame')
+    rows, seen, default = [], set(), False
+    for pats, expr in T.match_arms(body, 'name'):
+        e = squeeze(expr)
+        if pats == ['_']:
+            if e != 'Err(Error::InvalidExpression(name))':
+                raise Unparsed('wildcard arm of Operation::parse: %r' % e[:60])
+            default = True
+            continue
+        if default:
+            raise Unparsed('arm after the wildcard')
+        vals = T.pat_values(pats, consts, 'DW_OP_')
+        ctors = []
+        for c in re.findall(r'Operation::(\w+)', e):
+            if c not in ctors:
+                ctors.append(c)
+        if not ctors:
+            raise Unparsed('arm %r builds no Operation' % pats[0])
+        branching = re.search(r'(?<!\w)(if|match)(?!\w)', expr) is not None
+        reads = re.findall(READ_RE, e)
+        for v in vals:
+            if v in seen or v > 255:
+                raise Unparsed('opcode %d' % v)
+            seen.add(v)
+            rows.append('(%d, (%s, %s))' % (v, coq_list(strings(ctors), per_line=8),
+                                            'None' if branching else 'Some ' + coq_list(strings(reads), per_line=8)))
+    if not default:
+        raise Unparsed('Operation::parse has no wildcard arm')
+    text = (HEADER % 'src/read/op.rs (Operation::parse)' +
+            'From Coq Require Import List NArith String.\nImport ListNotations.\nLocal Open Scope string_scope.\nLocal Open Scope N_scope.\n\n'
+            '(* opcode -> (the Operation variants its arm can build, the reader calls of the arm in order;\n'
+            '   None when the arm branches).  Opcodes not listed: Err(InvalidExpression). *)\n'
+            'Definition op_table : list (N * (list string * option (list string))) :=\n  %s.\n' % coq_list(rows))
+    T.write(outdir, 'OpTable.v', text)
+
+
+# ---- CfiTable.v -------------------------------------------------------------------------------
+
+def gen_cfi_table(repo, outdir):
+    consts = all_constants(repo)
+    src = src_of(repo, 'src/read/cfi.rs')
+    m = re.search(r'const\s+CFI_INSTRUCTION_HIGH_BITS_MASK\s*:\s*u8\s*=\s*([0-9a-fA-Fxb_]+)\s*;', src)
+    if not m or not re.search(r'const\s+CFI_INSTRUCTION_LOW_BITS_MASK\s*:\s*u8\s*=\s*!\s*CFI_INSTRUCTION_HIGH_BITS_MASK\s*;', src):
+        raise Unparsed('CFI_INSTRUCTION_*_BITS_MASK not found')
+    mask = lit(m.group(1))
+    impl = impl_block(src, r'impl\s*<\s*T\s*:\s*ReaderOffset\s*>\s*CallFrameInstruction\s*<\s*T\s*>')
+    body = T.fn_body(impl, r'fn\s+parse\s*<\s*R\s*:\s*Reader<Offset\s*=\s*T>\s*>\s*\(')
+    sq = squeeze(body)
+    head = re.match(r'letinstruction=input\.read_u8\(\)\?;lethigh_bits=instruction&CFI_INSTRUCTION_HIGH_BITS_MASK;', sq)
+    if not head:
+        raise Unparsed('CallFrameInstruction::parse has an unexpected head')
+    k = head.end()
+    high = []
+    while sq.startswith('ifhigh_bits==', k):
+        c = re.match(r'ifhigh_bits==constants::(DW_CFA_\w+)\.0\{', sq[k:])
+        if not c or c.group(1) not in consts:
+            raise Unparsed('high-bits test %r' % sq[k:k + 60])
+        b0 = k + c.end() - 1
+        b1 = T.matching(sq, b0)
+        blk = sq[b0:b1]
+        cs = set(re.findall(r'returnOk\(CallFrameInstruction::(\w+)', blk))
+        if len(cs) != 1:
+            raise Unparsed('high-bits block of %s' % c.group(1))
+        high.append((consts[c.group(1)], cs.pop(), re.findall(READ_RE, blk)))
+        k = b1
+    if not sq.startswith('debug_assert_eq!(high_bits,0);letinstruction=constants::DwCfa(instruction);matchinstruction{', k):
+        raise Unparsed('CallFrameInstruction::parse: unexpected text after the high-bits tests')
+    rows, default = [], False
+    for pats, expr in T.match_arms(body, 'instruction'):
+        e = squeeze(expr)
+        if pats == ['otherwise']:
+            if e != 'Err(Error::UnknownCallFrameInstruction(otherwise))':
+                raise Unparsed('last arm %r' % e[:60])
+            default = True
+            continue
+        if default or len(pats) != 1:
+            raise Unparsed('arm %r' % pats)
+        g = re.fullmatch(r'(?:constants::)?(DW_CFA_\w+)(?:\s+if\s+vendor\s*==\s*Vendor::(\w+))?', pats[0].strip())
+        if not g or g.group(1) not in consts:
+            raise Unparsed('pattern %r' % pats[0])
+        cs = set(re.findall(r'CallFrameInstruction::(\w+)', e))
+        if len(cs) != 1:
+            raise Unparsed('arm of %s builds %d variants' % (g.group(1), len(cs)))
+        rows.append('(%d, (%s, %s))' % (consts[g.group(1)], coq_str(cs.pop()), coq_str(g.group(2) or '')))
+    if not default:
+        raise Unparsed('no catch-all arm')
+    text = (HEADER % 'src/read/cfi.rs (CallFrameInstruction::parse)' +
+            'From Coq Require Import List NArith String.\nImport ListNotations.\nLocal Open Scope string_scope.\nLocal Open Scope N_scope.\n\n'
+            'Definition high_bits_mask : N := %d.\n\n'
+            '(* `if high_bits == DW_CFA_x.0 { .. return Ok(CallFrameInstruction::V ..) }`, in source order: (value, V) *)\n'
+            'Definition high_table : list (N * string) :=\n  %s.\n\n'
+            '(* the match on the whole byte: (opcode, (variant, vendor guard or "")); not listed: Err(UnknownCallFrameInstruction) *)\n'
+            'Definition low_table : list (N * (string * string)) :=\n  %s.\n'
+            % (mask, coq_list(['(%d, %s)' % (v, coq_str(c)) for v, c, _ in high], per_line=3), coq_list(rows, per_line=2)))
+    T.write(outdir, 'CfiTable.v', text)
+
+
 JOBS = [
     ('Constants', gen_constants),
     ('EhPe', gen_ehpe),
@@ -669,4 +777,6 @@ JOBS = [
     ('ValueType', gen_value_type),
     ('SectionNames', gen_section_names),
     ('Loader', gen_loader),
+    ('OpTable', gen_op_table),
+    ('CfiTable', gen_cfi_table),
 ]
